@@ -51,4 +51,16 @@ PROPS["C06"] = {
     "level_note": "Trusted: Lean kernel; semver.Compare only on the nine released versions (validated by the stream); factgen's reading of version.go and go.mod.",
 }
 
+PROPS["C05"] = {
+    "level": "proof",
+    "streams": ["validate"],
+    "trusted_base": ["sigs.k8s.io/yaml UnmarshalStrict modelled at the value level by CdiModel/Decode.lean (unknown/duplicate member, null, type and integer-range rules); text-level parsing is third-party",
+                     "the k8s annotation-key rule as modelled in CdiModel/K8s.lean", UTF8],
+    "assumptions": ["document space = JSON values with correctly typed scalars and exact-case member names (I5)",
+                    "an RDT class id is legal iff shorter than 4096 bytes, not '.'/'..', without '/' or newline (I11)"],
+    "technique": "Lean 4 proof: validation pipeline = declarative WellFormed (total, exact), single-defect corollaries, strict decoding; mutation correspondence through ReadSpec/Refresh/WriteSpec in JSON and YAML",
+    "level_text": "Kernel-checked theorem for every raw Spec: the model of newSpec/validate returns ok(WellFormed s) - it never panics and accepts exactly the Specs that satisfy the conjunction of the SPEC.md rules at every position (version via C06, kind via C07, annotations, edits incl. nil entries, devices, unique names); corollaries give rejection for each single defect at any position, and decoding rejects unknown and duplicate members. Tied to the code by generating well-formed documents over the optional fields and ~20 kinds of single-defect mutants at spec level and first/middle/last device, rendering each as JSON and as block YAML, and pushing it through cdi.ReadSpec (both encodings), Cache.Refresh+GetErrors (both) and Cache.WriteSpec of the parsed value; every verdict must equal the model's and satisfy the WellFormed judge.",
+    "level_note": "Trusted: Lean kernel; the value-level decoding model; the yaml/json text codecs (third-party, fuzzed under C08); fact obligations F1/F4 on the regenerated tables.",
+}
+
 NOT_APPLICABLE = {}
